@@ -202,6 +202,15 @@ impl crate::qustate::QuState for StabilizerState
     fn measure_all_into<R: rand::Rng>(&mut self, cbits: &[usize],
         res: &mut ndarray::Array1<u64>, rng: &mut R) -> crate::error::Result<()>
     {
+        if res.len() < self.nr_shots
+        {
+            return Err(crate::error::Error::NotEnoughSpace(res.len(), self.nr_shots));
+        }
+        if cbits.len() != self.nr_bits
+        {
+            return Err(crate::error::Error::InvalidNrMeasurementBits(cbits.len(), self.nr_bits));
+        }
+
         // There does not seem to be a simpler way to measure all qubits from
         // a tableau, as there is for a vector state. So simply loop over all
         // bits
@@ -269,6 +278,15 @@ impl crate::qustate::QuState for StabilizerState
     fn peek_all_into<R: rand::Rng>(&mut self, cbits: &[usize],
         res: &mut ndarray::Array1<u64>, rng: &mut R) -> crate::error::Result<()>
     {
+        if res.len() < self.nr_shots
+        {
+            return Err(crate::error::Error::NotEnoughSpace(res.len(), self.nr_shots));
+        }
+        if cbits.len() != self.nr_bits
+        {
+            return Err(crate::error::Error::InvalidNrMeasurementBits(cbits.len(), self.nr_bits));
+        }
+
         let mut offset = 0;
         let mut one_mask = 0;
         for cbit in cbits
